@@ -64,6 +64,19 @@ Table(e) == [n \in AsgNames |-> Included(e, AsgSet(n))]
 L(c)       == [c |-> c, tt |-> << >>]
 GoBuild(e) == [c |-> "gobuild", tt |-> Table(e)]
 
+\* Abstraction of SIZE: a run of more than RunCap consecutive plain comment lines (// lines, inner lines of a block
+\* comment) is "many".  The harness applies the same projection to the headers it observes, so a 4 KiB, 64 KiB or 1 MiB
+\* boilerplate is one shape in the model (with BigN > RunCap lines) and any number of lines in the world.
+RunCap == 16
+RECURSIVE CapAcc(_, _, _)
+CapAcc(ls, c, n) ==
+  IF ls = << >> THEN << >>
+  ELSE LET h == Head(ls) IN
+       IF h.c = c /\ c \in {"lc", "bmid"}
+       THEN IF n >= RunCap THEN CapAcc(Tail(ls), c, n) ELSE <<h>> \o CapAcc(Tail(ls), c, n + 1)
+       ELSE <<h>> \o CapAcc(Tail(ls), h.c, 1)
+CapRuns(ls) == CapAcc(ls, "", 0)
+
 PkgIdx(ls) == IF \E i \in 1..Len(ls) : ls[i].c = "package"
               THEN CHOOSE i \in 1..Len(ls) : ls[i].c = "package" /\ \A j \in 1..(i-1) : ls[j].c # "package"
               ELSE Len(ls) + 1
